@@ -137,15 +137,28 @@ def psiVal : PsiVal Float → Val
   | .nan => .str "nan"
   | .notImpl => .str "err:notImplemented"
 
-/-- `C06.pop.psi <mode> <subs> <nIds> <params> <cov rows> <eta rows>` → matrix of individual parameters -/
+/-- `C06.pop.psi <mode> <subs> <nIds> <params> <cov rows> <eta rows> <legacy|repaired|intended>` → matrix of
+    individual parameters | err. An elementary heterogeneous model (mode `elem`) returns
+    `heteroPsiRows` rows; inside a composed model the block is broadcast into the rows of `eta`. -/
 def popPsiOp : Op
-  | [.str mode, subsV, nIdsV, parV, covV, etaV] => do
+  | [.str mode, subsV, nIdsV, parV, covV, etaV, legV] => do
     let eta ← etaV.fltss?
+    let leg ← match legV with
+      | .str "legacy" => some HetVariant.legacy
+      | .str "repaired" => some HetVariant.repaired
+      | .str "intended" => some HetVariant.intended
+      | _ => none
     let st ← setup mode subsV nIdsV (.int (Int.ofNat eta.length)) parV covV
     let nD := totalDim st.subs
     let e := matF eta
-    some [.list ((List.range eta.length).map fun r => .list ((List.range nD).map fun d =>
-      psiVal (composedPsi st.nIds eta.length st.params st.cov e st.subs 0 0 0 r d)))]
+    let nRows := eta.length
+    let outRows := match mode, st.subs with
+      | "elem", [s] => if s.kind == .hetero then heteroPsiRows leg st.nIds nRows else nRows
+      | _, _ => nRows
+    if mode == "composed" && !composedPsiOk leg st.nIds nRows st.subs then
+      return [errVal "valueError"]
+    some [.list ((List.range outRows).map fun r => .list ((List.range nD).map fun d =>
+      psiVal (composedPsi leg st.nIds nRows st.params st.cov e st.subs 0 0 0 r d)))]
   | _ => none
 
 /-- erf(x) = 2/√π · e^{-x²} · Σ_{n≥0} 2^n x^{2n+1} / (1·3·…·(2n+1)); all terms positive -/
